@@ -5,7 +5,7 @@ COLL_INVS = ['NoViolation', 'QueueMatchesFlags', 'FreeListSound', 'RemIsHeld', '
 def base(kind, cap0, ninit, nc, budget, maxpolls, maxitems=1, maxwakes=1, front=False, perpetual=False, fix=False, nw=2):
     return {'Kind': kind, 'Cap0': cap0, 'NInit': ninit, 'NC': nc, 'Budget': budget, 'NW': nw, 'MaxPolls': maxpolls,
             'MaxItems': maxitems, 'MaxWakes': maxwakes, 'GenMode': False, 'CursorFix': True, 'AllowFront': front,
-            'Mut': 'none', 'Perpetual': perpetual, 'WaitMul': 1, 'WaitAdd': 2, 'Panics': 0}
+            'Mut': 'none', 'Perpetual': perpetual, 'WaitMul': 1, 'WaitAdd': 2, 'Panics': 0, 'StaleCap': 0}
 
 # exhaustive model-checking configurations of Coll.tla (small constants; see DESIGN.md section 4)
 MC_BASE = {
@@ -129,7 +129,7 @@ PLAN = {
                       + [rnd(k, 'real', 'burst', 9, 90) for k in ('ja', 'tja', 'mb', 'mu')]},
     'C02': {'mc': mcs('fub', 'fub_b1', 'fub_init', 'fob', 'fo', 'fu', thorough=('fub_c3', 'fu4', 'fob4c3')),
             'gen': gens('fub', 'fub_init', 'fu', 'fob', 'fo'),
-            'random': suite(COLL_KINDS)},
+            'random': suite(COLL_KINDS, profiles=('stale',)) + [rnd('fub', 'real', 'stale_big', 3, 20), rnd('fu', 'real', 'stale_big', 2, 10)]},
     'C03': {'mc': [], 'gen': [], 'random': [], 'extra': ['refcount_engine'], 'trace_spec': ('TraceRc.tla', 'TraceRc.cfg')},
     'C04': {'extra': ['ordered_engine'],
             'mc': mcs('fob', 'fo', 'bo', 'tbo', 'ja', 'tja', thorough=('fob4c3', 'bo4', 'tbo4', 'ja4', 'tja4')),
@@ -164,7 +164,8 @@ PLAN = {
     'C12': {'mc': mcs('fub', 'fub_b1', 'fu', 'mb', 'mu', 'fub_panic', thorough=('fu_panic', 'mb_panic', 'fub_c3', 'fu4', 'mu3')),
             'gen': gens('fub', 'fu', 'mb', 'fub_panic', 'mb_panic'),
             'random': suite(COLL_KINDS + MERGE_KINDS, 250, 2500, 20, 200, profiles=('stale',))
-                      + [rnd(k, 'small', 'panic', 80, 800) for k in COLL_KINDS + MERGE_KINDS]},
+                      + [rnd(k, 'small', 'panic', 80, 800) for k in COLL_KINDS + MERGE_KINDS]
+                      + [rnd(k, 'small', 'forget', 150, 1500) for k in COLL_KINDS + MERGE_KINDS + ['bu', 'ja']]},
     'C13': {'mc': mcs('fub_perp', 'mb_perp', 'fu_perp', 'mu_perp', thorough=('mu_perp3',)) + [live('fub'), live('mb', MaxPolls=2), live('mu', NC=2), live('fu')],
             'gen': gens('fub', 'mb'),
             'random': suite(COLL_KINDS + MERGE_KINDS, 150, 1500, 10, 100, profiles=('budget',))
@@ -182,6 +183,8 @@ PLAN = {
                       + [rnd(k, 'real', 'manygroups', 10, 100) for k in ('fu', 'fo', 'mu')]
                       + [rnd(k, 'small', 'mix', 120, 1200) for k in ('bo', 'tbu', 'tbo', 'ja', 'tja')]
                       + [rnd(k, 'small', 'zerocap', 20, 200) for k in ('bu', 'bo', 'tbu', 'tbo')]
+                      + [rnd(k, 'small', 'forget', 60, 600) for k in COLL_KINDS + MERGE_KINDS]
+                      + [rnd(k, 'real', 'burst', 12, 120) for k in MERGE_KINDS]
                       + [rnd(k, 'small', 'orphans', 80, 800) for k in ALL_KINDS] + [rnd(k, 'real', 'orphans', 8, 80) for k in COLL_KINDS + MERGE_KINDS]},
     'C15': {'mc': mcs('fub', 'fub_init', 'fob', 'fo', 'fu', 'mb', thorough=('fub_c3', 'fu4', 'fob4c3')),
             'gen': gens('fub', 'fub_init', 'fob', 'fu'),
@@ -198,7 +201,9 @@ PLAN = {
             'random': suite(ALL_KINDS, 100, 1000, 10, 100)
                       + [rnd(k, 'small', 'oscillate', 60, 600) for k in COLL_KINDS + MERGE_KINDS]
                       + [rnd(k, 'real', 'oscillate', 20, 200) for k in COLL_KINDS + MERGE_KINDS]
-                      + [rnd(k, sz, 'frontchurn', n, 10 * n) for k in ('fo', 'fob') for sz, n in (('small', 40), ('real', 12))]},
+                      + [rnd(k, sz, 'frontchurn', n, 10 * n) for k in ('fo', 'fob') for sz, n in (('small', 40), ('real', 12))]
+                      + [rnd(k, 'real', 'creep', 3, 30) for k in ('fo', 'fu', 'mu')] + [rnd(k, 'small', 'creep', 20, 200) for k in ('fo', 'fu', 'mu')]
+                      + [rnd(k, 'real', 'hugepeak', 0, 1, tier='thorough') for k in ('mu', 'fu', 'fo')]},
 }
 
 HOOK_COMMITS = ['f17c35b', '748a996', 'e526430', '6de2393']
